@@ -31,9 +31,34 @@ type Ctx struct {
 	Seed  int64
 	out   *bufio.Writer
 	Count int
+	// pendingPath: prefix of the "case about to run" marker files (see Begin)
+	pendingPath string
 }
 
 func (c *Ctx) Thorough() bool { return c.Tier == "thorough" }
+
+// Begin records the case that is about to run in <out>.pending (overwritten each time), so that when the
+// process itself dies (a panic on a goroutine nobody recovers, a fatal runtime error) the check can name
+// the input it died on. Suites whose code under test may start goroutines call it before each case.
+func (c *Ctx) Begin(op string, in interface{}) { c.BeginSlot(0, op, in) }
+
+// BeginSlot is Begin for suites that run cases on several workers: one marker file per worker.
+func (c *Ctx) BeginSlot(slot int, op string, in interface{}) {
+	if c.pendingPath == "" {
+		return
+	}
+	b, err := json.Marshal(J{"suite": c.Suite, "op": op, "in": in, "impl": J{"died": true}})
+	if err == nil {
+		_ = os.WriteFile(fmt.Sprintf("%s.%d", c.pendingPath, slot), append(b, '\n'), 0o644)
+	}
+}
+
+// Done clears the marker of a slot (the case returned).
+func (c *Ctx) Done(slot int) {
+	if c.pendingPath != "" {
+		_ = os.Remove(fmt.Sprintf("%s.%d", c.pendingPath, slot))
+	}
+}
 
 // Emit writes one case.
 func (c *Ctx) Emit(op string, in interface{}, impl interface{}) {
@@ -109,6 +134,9 @@ func main() {
 		w = f
 	}
 	c := &Ctx{Suite: name, Rng: rand.New(rand.NewSource(*seed)), N: *n, Tier: *tier, Seed: *seed, out: bufio.NewWriterSize(w, 1<<20)}
+	if *out != "-" {
+		c.pendingPath = *out + ".pending"
+	}
 	defer c.out.Flush()
 	if *replay != "" {
 		if e.replay == nil {
